@@ -21,7 +21,7 @@ structure Stages (fs : Files) (lines : List Str) (a : Assembly) where
   /-- the table with every EQU defined by an expression evaluated (batch 4) -/
   t1 : SymTab
   hparse : parseLines lines = .ok parsed
-  hexpand : expand fs 64 [] parsed = .ok ss0
+  hexpand : expand fs (includeFuel fs) [] parsed = .ok ss0
   hsym : buildSymTab ss0 0 [] = some t
   hresolve : resolveAll t ss0 = some ss1
   htranslate : translateAll ss1 = some ss2
@@ -39,7 +39,7 @@ theorem assemble_stages {fs : Files} {lines : List Str} {a : Assembly} (h : asse
   cases h0 : parseLines lines with
   | ok parsed =>
     rw [h0] at h; dsimp only at h
-    cases h1 : expand fs 64 [] parsed with
+    cases h1 : expand fs (includeFuel fs) [] parsed with
     | ok ss0 =>
       rw [h1] at h; dsimp only at h
       cases h2 : buildSymTab ss0 0 [] with
